@@ -69,6 +69,9 @@ type PG struct {
 	Trunc  bool
 	Unsup  []*Node
 	nedges int
+	// Infeasible: edges excluded from every query because a separately
+	// discharged obligation shows they cannot be taken.
+	Infeasible *LP
 }
 
 const maxStates = 400000
@@ -183,6 +186,9 @@ func (x *explorer) simplify(t *Term, st map[int]Val, depth int) *Term {
 				return b.Args[k]
 			}
 		}
+		if v := mapLookup(b, i); v != nil {
+			return v
+		}
 	case "call":
 		if t.Name == "len" && len(t.Args) == 1 {
 			if t.Args[0].Op == "list" {
@@ -190,6 +196,17 @@ func (x *explorer) simplify(t *Term, st map[int]Val, depth int) *Term {
 			}
 			if t.Args[0].isConst() && t.Args[0].Name == "nil" {
 				return konst("0")
+			}
+			if m := t.Args[0]; m.Op == "maplit" {
+				all := true
+				for i := 0; i+1 < len(m.Args); i += 2 {
+					if !m.Args[i].isConst() {
+						all = false
+					}
+				}
+				if all {
+					return konst(strconv.Itoa(len(m.Args) / 2))
+				}
 			}
 		}
 	case "bin":
@@ -269,7 +286,26 @@ func ageTerm(t *Term, xkey string) *Term {
 	if args == nil {
 		return t
 	}
-	return &Term{Op: t.Op, Name: t.Name, Args: args, V: t.V, Fields: t.Fields, Pos: t.Pos}
+	nt := &Term{Op: t.Op, Name: t.Name, Args: args, V: t.V, Fields: t.Fields, Pos: t.Pos}
+	return collapseMap(nt)
+}
+
+// collapseMap merges repeated updates with the same key term (after ageing a
+// loop element, successive iterations write "the same" key).
+func collapseMap(t *Term) *Term {
+	switch t.Op {
+	case "mapset":
+		in := t.Args[0]
+		if in.Op == "mapset" && in.Args[1].Key() == t.Args[1].Key() {
+			return &Term{Op: "mapset", Args: []*Term{in.Args[0], t.Args[1], t.Args[2]}}
+		}
+	case "mapdel":
+		in := t.Args[0]
+		if in.Op == "mapdel" && in.Args[1].Key() == t.Args[1].Key() {
+			return in
+		}
+	}
+	return t
 }
 
 func copyStore(st map[int]Val) map[int]Val {
@@ -429,6 +465,18 @@ func refine(st map[int]Val, facts map[string]bool, a Atom) map[string]bool {
 	return facts
 }
 
+// mapDeletes applies delete(m, k) calls on tracked local maps.
+func (x *explorer) mapDeletes(n *Node, st, st2 map[int]Val) {
+	for _, c := range n.Calls {
+		if c.Op == "call" && c.Name == "delete" && len(c.Args) == 2 && c.Args[0].Op == "var" {
+			mv := c.Args[0].V
+			if cur, ok := st2[mv.ID]; ok && isMapValue(cur.T) {
+				st2[mv.ID] = Val{T: mapDel(cur.T, x.resolve(c.Args[1], st, 0)), N: -1}
+			}
+		}
+	}
+}
+
 func (x *explorer) callLabels(n *Node, st map[int]Val) []Label {
 	var ls []Label
 	for _, c := range n.Calls {
@@ -483,6 +531,102 @@ func (x *explorer) havoc(n *Node, st map[int]Val) {
 			}
 		}
 	}
+}
+
+// ---- local maps -----------------------------------------------------------
+
+func isMapValue(t *Term) bool {
+	if t == nil {
+		return false
+	}
+	switch t.Op {
+	case "maplit", "mapset", "mapdel":
+		return true
+	case "call":
+		return t.Name == "make" && len(t.Args) > 0 && t.Args[0].isConst() && strings.HasPrefix(t.Args[0].Name, "map[")
+	}
+	return false
+}
+
+func asMapLit(t *Term) *Term {
+	if t.Op == "call" && t.Name == "make" {
+		return &Term{Op: "maplit", Name: t.Args[0].Name}
+	}
+	return t
+}
+
+// mapPut returns the map term after m[k] = v.
+func mapPut(m, k, v *Term) *Term {
+	m = asMapLit(m)
+	if m.Op == "maplit" && k.isConst() {
+		n := &Term{Op: "maplit", Name: m.Name}
+		done := false
+		for i := 0; i+1 < len(m.Args); i += 2 {
+			if m.Args[i].Key() == k.Key() {
+				n.Args = append(n.Args, k, v)
+				done = true
+			} else {
+				n.Args = append(n.Args, m.Args[i], m.Args[i+1])
+			}
+		}
+		if !done {
+			// keep constant keys sorted for a canonical form
+			pos := len(n.Args)
+			for i := 0; i+1 < len(n.Args); i += 2 {
+				if n.Args[i].Key() > k.Key() {
+					pos = i
+					break
+				}
+			}
+			n.Args = append(n.Args[:pos], append([]*Term{k, v}, n.Args[pos:]...)...)
+		}
+		return n
+	}
+	if m.Op == "mapset" && m.Args[1].Key() == k.Key() {
+		return &Term{Op: "mapset", Args: []*Term{m.Args[0], k, v}}
+	}
+	return &Term{Op: "mapset", Args: []*Term{m, k, v}}
+}
+
+// mapDel returns the map term after delete(m, k).
+func mapDel(m, k *Term) *Term {
+	m = asMapLit(m)
+	if m.Op == "maplit" && k.isConst() {
+		n := &Term{Op: "maplit", Name: m.Name}
+		for i := 0; i+1 < len(m.Args); i += 2 {
+			if m.Args[i].Key() != k.Key() {
+				n.Args = append(n.Args, m.Args[i], m.Args[i+1])
+			}
+		}
+		return n
+	}
+	if m.Op == "mapdel" && m.Args[1].Key() == k.Key() {
+		return m
+	}
+	return &Term{Op: "mapdel", Args: []*Term{m, k}}
+}
+
+// mapLookup resolves m[k] when the map term determines it (nil otherwise).
+func mapLookup(m, k *Term) *Term {
+	switch m.Op {
+	case "maplit":
+		if !k.isConst() {
+			return nil
+		}
+		for i := 0; i+1 < len(m.Args); i += 2 {
+			if m.Args[i].Key() == k.Key() {
+				return m.Args[i+1]
+			}
+		}
+	case "mapset":
+		if m.Args[1].Key() == k.Key() {
+			return m.Args[2]
+		}
+		if m.Args[1].isConst() && k.isConst() {
+			return mapLookup(m.Args[0], k)
+		}
+	}
+	return nil
 }
 
 func splitPath(t *Term) (root *Term, path []string) {
@@ -542,6 +686,7 @@ func (x *explorer) step(s *PState) []succ {
 	case NNop, NExit, NCall:
 		st2 := copyStore(st)
 		x.havoc(n, st2)
+		x.mapDeletes(n, st, st2)
 		if n.Note != "" {
 			labels = append(labels, Label{Kind: "note", Key: n.Note, Node: n})
 		}
@@ -622,6 +767,14 @@ func (x *explorer) step(s *PState) []succ {
 					base = cur.T
 				}
 				st2[root.V.ID] = Val{T: setPath(base, x.g.P.typeStr(root.V.Typ), path, v.T), N: -1}
+				done = true
+			}
+		}
+		if n.Target.Op == "index" && n.Target.Args[0].Op == "var" && !isVolatile(n.Target.Args[0].V) {
+			mv := n.Target.Args[0].V
+			if cur, ok := st[mv.ID]; ok && isMapValue(cur.T) {
+				k := x.resolve(n.Target.Args[1], st, 0)
+				st2[mv.ID] = Val{T: mapPut(cur.T, k, v.T), N: -1}
 				done = true
 			}
 		}
